@@ -64,6 +64,21 @@ pub fn check(v: &SVal) -> Verdict {
         .with_rule(Rule::new("whole", Default::default(), Expr::reff("facts")))
         .expect("rule")
         .build();
+    // (a ruleset without rules serializes its input all the same)
+    match (catch(|| block_on(ruleset().build().evaluate(v)).map(|o| o.len())), &r) {
+        (Err(p), _) => return Err(Issue::new(format!("ser:panic:evaluate:{}", loc(&p)), format!("RuleSet::evaluate (no rules) on {v:?} panicked: {p}"))),
+        (Ok(Ok(0)), Ok(_)) | (Ok(Err(_)), Err(_)) => {}
+        (Ok(other), _) => {
+            return Err(Issue::new(
+                "ser:evaluate-differs",
+                format!(
+                    "RuleSet::evaluate(&T) of a ruleset without rules on {v:?} gives {:?} but T serializes to {}",
+                    other.map_err(|e| e.to_string()),
+                    r.as_ref().map(show_value).map_err(|e| e.to_string()).unwrap_or_else(|e| format!("Err({e})"))
+                ),
+            ))
+        }
+    }
     let via = catch(|| block_on(rs.evaluate(v)).map(|mut o| o.pop().map(|x| x.value)));
     match (via, &r) {
         (Err(p), _) => Err(Issue::new(
